@@ -9,9 +9,11 @@ ORDERS = ["localLower", "localHigher", "sameIdLocalASLower", "sameIdLocalASHighe
 def run(ctx):
     big = ctx.thorough()
     behs = []
-    for order in ORDERS:
-        c = {"MaxConns": 3, "MaxOpen": 2, "Order": order, "MaxDepth": 99}
-        ctx.design("Collision", vf.cfg_text(constants=c, invariants=INV, properties=PROPS, view="View"), label="design " + order)
+    for order, outgoing in [(o, d) for d in (False, True) for o in ORDERS]:
+        c = {"MaxConns": 3, "MaxOpen": 2, "Order": order, "Outgoing": outgoing, "MaxDepth": 99}
+        order = order + ("+outgoing" if outgoing else "")
+        if not outgoing:
+            ctx.design("Collision", vf.cfg_text(constants=c, invariants=INV, properties=PROPS, view="View"), label="design " + order)
         # every interleaving of the events of two simultaneous connections (all paths, not one witness per transition:
         # FSMs that lost keep existing in the peer and must not disturb what follows)
         g = dict(c, MaxDepth=8 if big else 7)
@@ -19,15 +21,16 @@ def run(ctx):
                     timeout=3000)
         if not r.ok:
             raise vf.Infra("Collision violates its invariants: %s" % r.violation)
-        behs += vf.subsample(ctx.rng, r.behaviours, 4000 if big else 260)
+        behs += vf.subsample(ctx.rng, r.behaviours, 4000 if big else 140)
         rs = ctx.simulate("Collision", vf.cfg_text(next="NextSim", constants=dict(c, MaxConns=5 if big else 4, MaxDepth=16)),
-                          num=400 if big else 40, depth=18, label="sim " + order)
+                          num=400 if big else 20, depth=18, label="sim " + order)
         behs += rs.behaviours
     ctx.rule = ("Collision behaviours: the peer opens up to 3 (simulation: 4-5) connections, at most 2 at a time; every interleaving of "
                 "Connect / OPEN / KEEPALIVE / UPDATE / NOTIFICATION from the peer on the connections, to depth 7-8 (all paths, seeded "
                 "sample) plus seeded random behaviours of 16 events; x 4 identifier orders (local identifier lower / higher, equal "
-                "identifiers with the local AS lower / higher). Replayed on a real bgpServer with a passive eBGP peer whose connections "
-                "arrive through the harness's listener manager; after every event: per connection the FSM state, connection closed, "
+                "identifiers with the local AS lower / higher) x (all connections accepted ones of a passive peer | connection 1 the one "
+                "the speaker dialled, handed to the peer's own FSM where its TCP connector delivers it). Replayed on a real bgpServer "
+                "whose accepted connections arrive through the harness's listener manager; after every event: per connection the FSM state, connection closed, "
                 "messages written (OPEN, KEEPALIVE, Cease NOTIFICATION), the number of Established FSMs (<= 1) and the Loc-RIB (only "
                 "the established session's prefix) must equal the model's. non-trivial = an OPEN arrives while a sibling is in "
                 "OpenConfirm or Established")
